@@ -197,7 +197,7 @@ array_accessor:
 	;
 
 any_level:
-	INT_P							{ n, _ := strconv.ParseInt($1, 0, 64); $$ = int(n) }
+	INT_P							{ n, err := strconv.ParseInt($1, 0, 64); $$ = anyLevel(pathlex, $1, n, err) }
 	| LAST_P						{ $$ = -1 }
 	;
 
